@@ -45,6 +45,8 @@ PwlValid(c) ==
   /\ (c.cyclic => Len(c.kp) >= 3)                      \* the kernel needs at least two rows
   \* clamping is implemented for monotonic calibrators only (rejected at construction since the fix: commit)
   /\ ~(c.mono = 0 /\ ((c.clampMin /\ c.hasMin) \/ (c.clampMax /\ c.hasMax)))
+  \* learned interior keypoints cannot be combined with convexity
+  /\ ~(c.learned /\ c.conv # 0)
 PwlMustReject(c) == \/ ~Sorted(c.kp) \/ Len(c.kp) < 2 \/ (c.cyclic /\ c.mono # 0)
                     \/ (c.hasMin /\ c.hasMax /\ c.omin > c.omax)
 \* ---- Linear: c = [kind |-> "linear", mono, mdom, rdom, hasBounds (seq), lo, hi (seqs of ints), norm]
